@@ -277,6 +277,13 @@ class Builder:
         if isinstance(x, SymVal):
             self.I.assume(z3.And(x.t >= lo, x.t <= hi))
 
+    def nonempty(self, *atoms):
+        """assume these atoms (names) are not the empty string (replays render atoms as non-empty strings)"""
+        from .interp import ATOM_NONEMPTY
+        for a in atoms:
+            if isinstance(a, SymVal):
+                self.I.assume(ATOM_NONEMPTY(a.t))
+
     def opaque(self, name, methods=None, attrs=None, classes=()):
         return Opaque(name, methods, attrs, classes)
 
@@ -640,6 +647,16 @@ def case_list(c):
     return [dict(zip(names, combo)) for combo in itertools.product(*alts)] or [{}]
 
 
+def arg_order(fn, args):
+    """names of the setup's entries that are passed to the function, in the order of its parameters (entries whose
+    name starts with '_' are spec-only unless a parameter has that name)"""
+    params = [p_.arg for p_ in fn.node.args.posonlyargs + fn.node.args.args + fn.node.args.kwonlyargs]
+    keys = [k_ for k_ in args if not k_.startswith('_') or k_ in params]
+    if all(k_ in params for k_ in keys):
+        keys.sort(key=params.index)
+    return keys
+
+
 def verify_contract(I, c, timeout_ms=10000, only_case=None):
     """Generate and discharge all obligations of contract c from the current source text."""
     res = FnResult(c)
@@ -697,8 +714,7 @@ def verify_contract(I, c, timeout_ms=10000, only_case=None):
                 exc = None
                 result = None
                 try:
-                    pnames = {p_.arg for p_ in fn.node.args.posonlyargs + fn.node.args.args + fn.node.args.kwonlyargs}
-                    call_args = [v for k_, v in args.items() if not k_.startswith('_') or k_ in pnames]
+                    call_args = [args[k_] for k_ in arg_order(fn, args)]
                     I._in_body = True
                     result = I.call_func_body(fn, call_args)
                 except PyRaise as pr:
@@ -737,11 +753,14 @@ def verify_contract(I, c, timeout_ms=10000, only_case=None):
                         return 'returned'
                 for cid, text, _sv in c.ensures_:
                     inf = {'clause': text, 'case': label}
+                    I.struct_mismatch = False
                     try:
                         goal = I.eval_spec(text, penv)
                     except PyRaise as pr:
                         goal = False
                         inf['clause_raised'] = repr(pr.exc)
+                    if I.struct_mismatch:
+                        inf['structural'] = 'the clause compares strings that were built differently: a refutation stands only if it replays'
                     I.oblige('%s::post.%s' % (c.name, cid), goal, kind='post', info=inf)
                 return 'returned'
 
